@@ -13,7 +13,8 @@ for *every* well-typed value (`wt`), not only for the ones `ValExpressible` sing
   `-0` comes back as `+0` (`IsZero` compares floats with `== 0`);
 * an `optional` nil pointer / interface is not written and stays nil;
 * a time before the Unix epoch (`time.Time{}` included) is written as `"0"`
-  (`serializer.TimeToUint64`) and comes back as the epoch;
+  (`serializer.TimeToUint64`) and comes back as the epoch; a time 2^63 ns or more after the epoch
+  (year 2262 and later) is written as `math.MaxInt64` and comes back as 2262-04-11T23:47:16.854775807Z;
 * a float comes back as `ParseFloat (FormatFloat v)`: every NaN as the canonical quiet NaN, `-0`
   (outside `omitempty`) as `-0`.
 
@@ -37,7 +38,7 @@ def canon : JTy → Val → Val
   | .bytes _, .nil => .bytes []
   | .typedBytes false none _ _, .nil => .bytes []
   | .time, .nil => .num 0
-  | .time, .num n => if n < 0 then .num 0 else .num n
+  | .time, .num n => if n < 0 then .num 0 else if n < pow2 63 then .num n else .num maxNano
   | .slice _ _, .nil => .list []
   | .slice _ e, .list xs => .list (xs.map (canon e))
   | .array _ e, .list xs => .list (xs.map (canon e))
@@ -64,7 +65,7 @@ end
 mutual
 /-- `v` is a Go value of type `t` whose encoding can be decoded: integers in range, arrays of the
 right length, map keys pairwise distinct, `big.Int` within uint256.  Nil slices and maps, any float
-bits, times before the epoch and `time.Time{}` are all allowed. -/
+bits, every instant (before the epoch, `time.Time{}`, beyond the `int64` nanosecond range) are all allowed. -/
 def wt : JTy → Val → Bool
   | .bool, .bool _ => true
   | .uint w, .num n => inU w n
@@ -81,7 +82,7 @@ def wt : JTy → Val → Bool
   | .typedBytes true _ _ _, .nil => true
   | .u256, .num n => 0 ≤ n && n < pow2 256
   | .u256, .nil => true
-  | .time, .num n => n < pow2 63
+  | .time, .num _ => true
   | .time, .nil => true
   | .slice _ e, .list xs => xs.all (wt e)
   | .slice _ _, .nil => true
